@@ -20,6 +20,7 @@ rm -f "$V/bin/harness" "$V/bin/harness_race" "$V/bin/extract"
 cd "$V"
 for p in "$@"; do
   VERIF_REPO="$R" ./check $p --tier $TIER 2>"$S/err_$p.log" | grep -E "^(OK|VIOLATION)" | sed "s#$V#/verif#; s/^/[$p] /"
+  cp "$S/err_$p.log" "/tmp/mut/lasterr_$(basename $(dirname "$P"))_$p.log" 2>/dev/null
   # keep the first replay file for the record
   for f in $(ls "$V"/evidence/replay/$p-*.json 2>/dev/null | head -1); do cp "$f" "$(dirname "$P")/replay_$p.json"; done
   rm -f "$V"/evidence/replay/*
